@@ -279,8 +279,11 @@ def parseActions (d : Dec) (fuel : Nat) : Nat → List Token → Except PErr (Li
         .ok (a :: more, r')
     | [] => err r
 
-/-- rule description: the token text without its first and last character, *not* unquoted -/
-def descOf (t : Token) : String := String.ofList (t.text.drop 1).dropLast
+/-- rule description: the string the literal denotes; when it does not unquote, the raw characters between the quotes -/
+def descOf (t : Token) : String :=
+  match unquote t.text with
+  | .ok s => String.ofList s
+  | _ => String.ofList (t.text.drop 1).dropLast
 
 /-- `RULE ruleName ruleDescription? salience? { whenScope thenScope }`; the salience value is kept as parsed
     (the int32 range check is the listener's) -/
